@@ -40,7 +40,7 @@ ALPHABET = (
      ["insert2", "CNOT", [["e", 0], ["p", 0]], None, None, [0, 0]], ["insert2", "CNOT", [["e", 0], ["p", 1]], None, None, [1, 0]],
      ["insert2", "CZ", [["p", 0], ["p", 1]], None, None, [1, 1]], ["insert2", "MR", [["e", 0], ["p", 0]], 0, None, [0, 1]]] +
     [["remove", 0], ["remove", 1], ["remove", 2], ["replace", 0], ["replace", 1], ["replace", 0, 0, "same"], ["unwrap"], ["group"], ["remove_identity"],
-     ["addreg", "e"], ["addreg", "p"], ["copy"]])
+     ["addreg", "e"], ["addreg", "p"], ["copy"], ["rejected", "replace_other_register", 0], ["rejected", "insert_wrong_edge_count", 1]])
 
 
 def shards(tier, seed):
@@ -69,7 +69,7 @@ def floors(tier):
 
 def _own_floors(tier):
     f = {"histories": 1500, "edits:applied": 15000}
-    for e in ("add", "insert", "insert2", "remove", "replace", "unwrap", "group", "remove_identity", "addreg", "copy", "assign_noise"):
+    for e in ("add", "insert", "insert2", "remove", "replace", "unwrap", "group", "remove_identity", "addreg", "copy", "assign_noise", "rejected"):
         f["edit:" + e] = 100
     f["histories:len>=100"] = 1 if tier == "quick" else 200
     f["checks:deep"] = 5000
@@ -212,6 +212,10 @@ class History:
                 probs = dagmon.check(noisy, None, deep=True)
                 if probs:
                     ctx.violation("assign_noise_result_inconsistent", self.case(), {"problems": probs[:5]}, key="dag:assign_noise")
+            elif kind == "rejected":
+                # an edit the API documents as rejected (AssertionError / ValueError) on registers that all exist: the circuit
+                # must come out exactly as it went in, and the history goes on
+                return self.rejected(d)
             else:
                 raise ValueError(kind)
         except Exception as e:
@@ -230,6 +234,77 @@ class History:
         self.desc.append(d)
         ctx.count("edit:" + kind)
         ctx.count("edits:applied")
+        self.verify(d)
+        return True
+
+    def rejected(self, d):
+        prog, circ, ctx = self.prog, self.circ, self.ctx
+        which, r = d[1], d[2]
+        qregs = [w for w in prog.wires if w[0] in "ep"]
+        live = self.live_nonio()
+        before = (dict((t, len(v)) for t, v in circ.register.items()), circ.dag.number_of_nodes(), circ.dag.number_of_edges(),
+                  {k: sorted(map(str, v)) for k, v in circ.node_dict.items() if v})
+        try:
+            if which == "insert_wrong_edge_count":
+                w = qregs[r % len(qregs)]
+                op = make_gq_op(Program(prog.n_e, prog.n_p, prog.n_c).new_op("H", [w]))
+                we = wire_edges(circ, w[0], w[1])
+                call = lambda: circ.insert_at(op, [we[0], we[-1]] if len(we) > 1 else [we[0], we[0]])
+            elif which == "insert2_one_edge":
+                if len(qregs) < 2:
+                    return False
+                a, b = qregs[r % len(qregs)], qregs[(r + 1) % len(qregs)]
+                op = make_gq_op(Program(prog.n_e, prog.n_p, prog.n_c).new_op("CNOT", [a, b]))
+                call = lambda: circ.insert_at(op, [wire_edges(circ, a[0], a[1])[0]])
+            elif which == "replace_other_register":
+                cand = [o for o in live if (o.kind in ONEQ or o.kind == "W") and o.obj is not None]
+                others = [w for w in qregs]
+                if not cand or len(others) < 2:
+                    return False
+                o = cand[r % len(cand)]
+                w2 = [w for w in others if w != o.q[0]][r % (len(others) - 1)]
+                node = self.node_of(o)
+                if node is None:
+                    return False
+                op = make_gq_op(Program(prog.n_e, prog.n_p, prog.n_c).new_op("X", [w2]))
+                call = lambda: circ.replace_op(node, op)
+            elif which == "add_skipping_register":
+                t = ["e", "p"][r % 2]
+                cnt = {"e": prog.n_e, "p": prog.n_p}[t]
+                from graphiq.circuit import ops as gops
+                op = gops.Hadamard(register=cnt + 1 + r % 3, reg_type=t)
+                call = lambda: circ.add(op)
+            else:
+                return False
+        except Exception:
+            return False
+        raised = None
+        try:
+            call()
+        except Exception as e:
+            raised = e
+        self.desc.append(d)
+        ctx.count("edit:rejected")
+        ctx.count("rejected:" + which + (":raised" if raised is not None else ":accepted"))
+        after = (dict((t, len(v)) for t, v in circ.register.items()), circ.dag.number_of_nodes(), circ.dag.number_of_edges(),
+                 {k: sorted(map(str, v)) for k, v in circ.node_dict.items() if v})
+        if raised is not None and after != before:
+            changed = [i for i, (x, y) in enumerate(zip(before, after)) if x != y]
+            ctx.violation("rejected_edit_changed_the_circuit", self.case(), {"edit": d, "exception": f"{type(raised).__name__}: {raised}"[:200],
+                                                                              "changed": [["register counts", "node count", "edge count", "label index"][i] for i in changed]},
+                          key="dag:rejected:" + which)
+            self.alive = False
+            return True
+        if raised is None:
+            # accepted although documented as rejected: whatever it did, the structure must still be consistent
+            try:
+                probs = dagmon.check(circ, None, deep=False)
+            except Exception as e2:
+                probs = [f"checker could not walk the circuit: {type(e2).__name__}: {e2}"]
+            if probs:
+                ctx.violation("dag_inconsistent_after_edit_documented_as_rejected", self.case(), {"edit": d, "problems": probs[:5]}, key="dag:accepted:" + which)
+            self.alive = False        # the specification has no meaning for such an edit
+            return True
         self.verify(d)
         return True
 
@@ -328,8 +403,10 @@ def run_random(rng, lmax, ctx):
         elif u < 0.95:
             if prog.n_q < 6:
                 h.apply(["addreg", ["e", "p", "c"][int(rng.integers(3))]])
-        elif u < 0.98:
+        elif u < 0.97:
             h.apply(["copy"])
+        elif u < 0.985:
+            h.apply(["rejected", ["insert_wrong_edge_count", "insert2_one_edge", "replace_other_register", "add_skipping_register"][int(rng.integers(4))], int(rng.integers(1000))])
         else:
             h.apply(["assign_noise"])
     ctx.count("histories")
